@@ -14,6 +14,8 @@ package main
 //      record written, then Flush, Seek(0,0), header with Count = counter
 //  S6  Triangle3.Normal ≡ ((t1−t0)×(t2−t0)) / |(t1−t0)×(t2−t0)|, no other case
 //  S7  the output file is created truncated (os.Create or O_TRUNC)
+//  S8  the text loader parses numbers at the precision it stores them (bitSize 64 for
+//      float64 vertices): bitSize 32 rounds every listed coordinate to single precision
 //
 // Not decided: ASCII grammar beyond C14, float32 rounding, OS behaviour.
 
@@ -142,8 +144,73 @@ func checkC13(ctx *Ctx, r *Report, tier string) {
 			r.check("S3", fmt.Sprintf("%s|%s#%d", shortFn(fn), f.Name(), nb), c.Pos(), le, "STL is little-endian")
 		})
 	}
-	r.floor("S3", 5)
+	r.floor("S3", 3)
 	r.expectControl("S3", "verifCtlBigEndian")
+	// S8: the text loader reads numbers at the precision it stores them. The triangles it returns
+	// are float64; a number parsed with bitSize 32 is rounded to single precision first (and
+	// fails with a range error beyond it): "vertex 0.1 0.2 0.3" would not load as listed.
+	if load := ctx.ssaFunc("render", "LoadSTL"); load != nil {
+		seen := map[*ssa.Function]bool{}
+		var walk func(fn *ssa.Function)
+		np := 0
+		walk = func(fn *ssa.Function) {
+			if seen[fn] || len(fn.Blocks) == 0 {
+				return
+			}
+			seen[fn] = true
+			allInstrs(fn, func(b *ssa.BasicBlock, ins ssa.Instruction) {
+				ci, ok := ins.(ssa.CallInstruction)
+				if !ok {
+					return
+				}
+				f := ci.Common().StaticCallee()
+				if f == nil {
+					return
+				}
+				if inModule(f) {
+					walk(f)
+					return
+				}
+				if f.String() != "strconv.ParseFloat" || len(ci.Common().Args) != 2 {
+					return
+				}
+				np++
+				bits := int64(-1)
+				if c, ok := ci.Common().Args[1].(*ssa.Const); ok && c.Value != nil {
+					if q, ok := constantToRat(c.Value); ok && q.IsInt() {
+						bits = q.Num().Int64()
+					}
+				}
+				// what the parsed value becomes: float32 only if every use converts it
+				toSingle := false
+				if v, ok := ins.(ssa.Value); ok && v.Referrers() != nil {
+					for _, ref := range *v.Referrers() {
+						if ex, ok := ref.(*ssa.Extract); ok && ex.Index == 0 && ex.Referrers() != nil {
+							n, n32 := 0, 0
+							for _, u := range *ex.Referrers() {
+								n++
+								if cv, ok := u.(*ssa.Convert); ok {
+									if bt, ok := cv.Type().Underlying().(*types.Basic); ok && bt.Kind() == types.Float32 {
+										n32++
+									}
+								}
+							}
+							toSingle = n > 0 && n == n32
+						}
+					}
+				}
+				want := int64(64)
+				if toSingle {
+					want = 32
+				}
+				r.check("S8", fmt.Sprintf("%s|ParseFloat#%d|precision-of-the-stored-value", shortFn(fn), np), ins.Pos(), bits == want, fmt.Sprintf("bitSize %d, the value is kept as float%d", bits, want))
+			})
+		}
+		walk(load)
+		r.floor("S8", 1)
+	} else {
+		r.undecided("S8", "LoadSTL", 0, "not found")
+	}
 
 	// S4 writers
 	type recTerms map[string]*Term
@@ -184,10 +251,8 @@ func checkC13(ctx *Ctx, r *Report, tier string) {
 	var recs []recTerms
 	var tvs []string
 	writers := map[string]*ssa.Function{"SaveSTL": ctx.ssaFunc("render", "SaveSTL")}
-	for _, f := range ctx.srcFuncs("render") {
-		if f.Parent() != nil && f.Parent().Name() == "writeSTL" {
-			writers["writeSTL$goroutine"] = f
-		}
+	if g := closureOf(ctx, "render", "writeSTL"); g != nil {
+		writers["writeSTL$goroutine"] = g // the function writeSTL starts, closure or named
 	}
 	for _, name := range []string{"SaveSTL", "writeSTL$goroutine"} {
 		fn := writers[name]
@@ -245,11 +310,12 @@ func checkC13(ctx *Ctx, r *Report, tier string) {
 		ok := false
 		detail := ""
 		for o, v := range st.mem {
-			if o.name != "complit" && !strings.Contains(o.name, "Triangle3") {
-				continue
-			}
 			ag, _ := v.(*Agg)
 			if ag == nil || len(ag.Elems) != 3 {
+				continue
+			}
+			// a triangle built by the loader: a literal, new(Triangle3), or a local of that type
+			if o.name != "complit" && !strings.Contains(o.name, "Triangle3") && !(ag.T != nil && strings.HasSuffix(ag.T.String(), "sdf.Triangle3")) {
 				continue
 			}
 			m := map[string]*Term{}
